@@ -341,12 +341,20 @@ def run(ctx, only=None):
         # proposal without certificate is withdrawn (it may still be a written exemption, else its cycle is unguarded)
         try:
             cs = cgg.extract(ctx.build, g)
-            deny = sorted(n for n, _ in cs.uncertified if n not in cgg.CHECKERS)
-            if deny:
+            deny = sorted(n for n, _ in cs.uncertified if n not in cgg.CHECKERS and not (cs.ir_proposed and n.startswith("janet_continue")))
+            if deny or cs.ir_proposed:
                 for nm, why in cs.uncertified:
                     ctx.say("guard idiom matched in %s but the IR has no depth test dominating its recursive calls: %s" % (nm, why[:300]))
-                g = cgm.extract(ctx.build, deny=deny)
+                for nm, tag in sorted(cs.ir_proposed.items()):
+                    ctx.say("guard recognised from the IR alone (no source idiom matched): %s as %s" % (nm, tag))
+                acc = dict(cs.ir_proposed)
+                g = cgm.extract(ctx.build, deny=deny, accept=acc)
                 cs = cgg.extract(ctx.build, g)
+                deny2 = sorted(n for n, _ in cs.uncertified if n not in cgg.CHECKERS and n not in deny)
+                if deny2:
+                    deny = sorted(set(deny) | set(deny2))
+                    g = cgm.extract(ctx.build, deny=deny, accept=acc)
+                    cs = cgg.extract(ctx.build, g)
                 for nm in deny:
                     ctx.say("  -> %s: %s" % (nm, "covered by the written exemption (" + g.bounded[nm][:80] + "...)" if nm in g.bounded else "NOT a guard any more"))
             for nm, why in cs.uncertified:
